@@ -98,3 +98,108 @@ Proof.
   - destruct fuel as [|fu]; [lia|]. apply eallcontents_unfold. right. exists k. split; [exact Hk|].
     apply IH. lia.
 Qed.
+
+(* ---------- metamodel side ---------- *)
+From PyecoreV Require Import Model.MetaViews.
+
+Lemma dedup_nat_In seen l x : In x (dedup_nat seen l) <-> (In x l /\ ~ In x seen).
+Proof.
+  revert seen; induction l as [|y r IH]; intros seen; simpl; [tauto|].
+  destruct (existsb (Nat.eqb y) seen) eqn:E.
+  - rewrite IH. apply existsb_exists in E. destruct E as [z [Hz Ez]]. apply Nat.eqb_eq in Ez. subst z.
+    split; [tauto|]. intros [[H|H] Hn]; [subst; tauto | tauto].
+  - simpl. rewrite IH. simpl.
+    assert (Hy : ~ In y seen).
+    { intros H. assert (existsb (Nat.eqb y) seen = true) by (apply existsb_exists; exists y; split; [exact H | apply Nat.eqb_refl]). congruence. }
+    split.
+    + intros [H|[H Hn]]; [subst; tauto | tauto].
+    + intros [[H|H] Hn]; [left; exact H|]. destruct (Nat.eq_dec y x); [left; assumption | right; tauto].
+Qed.
+
+Lemma dedup_nat_NoDup seen l : NoDup (dedup_nat seen l).
+Proof.
+  revert seen; induction l as [|y r IH]; intros seen; simpl; [constructor|].
+  destruct (existsb (Nat.eqb y) seen); [apply IH|].
+  constructor; [|apply IH]. rewrite dedup_nat_In. simpl. tauto.
+Qed.
+
+(* d is a strict ancestor of c, reached in at most n inheritance steps *)
+Inductive ancestor (g : cgraph) : nat -> nat -> nat -> Prop :=
+| anc1 c d : In d (sups g c) -> ancestor g 1 c d
+| ancS n c k d : In k (sups g c) -> ancestor g n k d -> ancestor g (S n) c d.
+
+Theorem supers_gen_sound g fuel c d :
+  In d (supers_gen fuel g c) -> exists n, ancestor g n c d.
+Proof.
+  revert c d; induction fuel as [|fu IH]; intros c d H; simpl in H; [destruct H|].
+  rewrite in_app_iff, in_flat_map in H. destruct H as [H|[k [Hk Hd]]].
+  - exists 1. constructor; exact H.
+  - destruct (IH k d Hd) as [n Hn]. exists (S n). eapply ancS; eauto.
+Qed.
+
+Theorem supers_gen_complete g n c d fuel :
+  ancestor g n c d -> n <= fuel -> In d (supers_gen fuel g c).
+Proof.
+  intros H. revert fuel. induction H as [c d Hd|n c k d Hk Ha IH]; intros fuel Hle.
+  - destruct fuel; [lia|]. simpl. apply in_app_iff. left; exact Hd.
+  - destruct fuel as [|fu]; [lia|]. simpl. apply in_app_iff. right. apply in_flat_map.
+    exists k. split; [exact Hk | apply IH; lia].
+Qed.
+
+(* eAllSuperTypes: exactly the transitive supertypes (within the fuel), each once *)
+Theorem all_supers_spec g fuel c d :
+  In d (all_supers fuel g c) <-> In d (supers_gen fuel g c).
+Proof. unfold all_supers. rewrite dedup_nat_In. simpl. tauto. Qed.
+
+Theorem all_supers_NoDup g fuel c : NoDup (all_supers fuel g c).
+Proof. apply dedup_nat_NoDup. Qed.
+
+(* eAllStructuralFeatures: own plus inherited declarations, each once *)
+Theorem feats_gen_sound g fuel c f :
+  In f (feats_gen fuel g c) -> In f (own g c) \/ exists n d, ancestor g n c d /\ In f (own g d).
+Proof.
+  revert c f; induction fuel as [|fu IH]; intros c f H; simpl in H; [destruct H|].
+  rewrite in_app_iff, in_flat_map in H. destruct H as [H|[k [Hk Hf]]]; [left; exact H|].
+  right. destruct (IH k f Hf) as [Ho|[n [d [Ha Ho]]]].
+  - exists 1, k. split; [constructor; exact Hk | exact Ho].
+  - exists (S n), d. split; [eapply ancS; eauto | exact Ho].
+Qed.
+
+Theorem feats_gen_complete_own g fuel c f : In f (own g c) -> In f (feats_gen (S fuel) g c).
+Proof. intros H. simpl. apply in_app_iff. left; exact H. Qed.
+
+Theorem feats_gen_complete_inherited g n c d f fuel :
+  ancestor g n c d -> In f (own g d) -> n < fuel -> In f (feats_gen fuel g c).
+Proof.
+  intros H. revert fuel. induction H as [c d Hd|n c k d Hk Ha IH]; intros fuel Ho Hlt.
+  - destruct fuel as [|[|fu]]; try lia. simpl. apply in_app_iff. right. apply in_flat_map.
+    exists d. split; [exact Hd|]. apply in_app_iff. left; exact Ho.
+  - destruct fuel as [|fu]; [lia|]. simpl. apply in_app_iff. right. apply in_flat_map.
+    exists k. split; [exact Hk | apply IH; [exact Ho | lia]].
+Qed.
+
+Theorem all_feats_spec g fuel c f :
+  In f (all_feats fuel g c) <-> In f (feats_gen fuel g c).
+Proof. unfold all_feats. rewrite dedup_nat_In. simpl. tauto. Qed.
+
+Theorem all_feats_NoDup g fuel c : NoDup (all_feats fuel g c).
+Proof. apply dedup_nat_NoDup. Qed.
+
+Theorem all_refs_attrs_partition g fuel c f :
+  In f (all_feats fuel g c) <-> (In f (all_refs fuel g c) \/ In f (all_attrs fuel g c)).
+Proof.
+  unfold all_refs, all_attrs. rewrite !filter_In. destruct (isref g f); simpl; intuition discriminate.
+Qed.
+
+Theorem find_feat_spec g fuel c nm f :
+  find_feat fuel g c nm = Some f -> In f (feats_gen fuel g c) /\ fname g f = nm.
+Proof.
+  unfold find_feat. intros H. apply find_some in H. destruct H as [H1 H2]. apply Z.eqb_eq in H2. tauto.
+Qed.
+
+Theorem find_feat_none g fuel c nm :
+  find_feat fuel g c nm = None -> forall f, In f (feats_gen fuel g c) -> fname g f <> nm.
+Proof.
+  unfold find_feat. intros H f Hf E. pose proof (find_none _ _ H f Hf) as N. simpl in N.
+  apply Z.eqb_neq in N. congruence.
+Qed.
